@@ -363,6 +363,48 @@ def run_target_history(acc, n, edges, form, hist):
     acc.nontriv(("target", n, tuple(map(tuple, edges)), form, tuple(hist)))
 
 
+def run_stabilizer_target(acc, n, idx, hist):
+    """a (generally non-graph) stabilizer state used as target / state by metrics and the solver: it must keep denoting itself."""
+    import graphiq.metrics as gm
+    from graphiq.state import QuantumState
+    from graphiq.solvers.time_reversed_solver import TimeReversedSolver
+    grp = spaces.stabilizer_states(n)[idx]
+    case = {"n": n, "target": grp.strings(), "history": list(hist)}
+    acc.evaluations += 1
+    t = QuantumState(gq.group_to_clifford_tableau(grp), rep_type="s")
+    v = grp.vector()
+    for k, name in enumerate(hist):
+        acc.transitions += 1
+        try:
+            if name == "infidelity_dm_state":
+                val = gm.Infidelity(t).evaluate(QuantumState(sv.dm(v), rep_type="dm"), None)
+                if not any(g.startswith("-") for g in grp.strings()) and abs(val) > 1e-9:
+                    acc.violation("target", name, "infidelity-with-itself-not-zero", dict(case, step=k), 0.0, float(val))
+            elif name == "infidelity_s_state":
+                val = gm.Infidelity(t).evaluate(QuantumState(gq.group_to_clifford_tableau(grp), rep_type="s"), None)
+                if abs(val) > 1e-9:
+                    acc.violation("target", name, "infidelity-with-itself-not-zero", dict(case, step=k), 0.0, float(val))
+            elif name == "trs":
+                try:
+                    TimeReversedSolver(target=t, metric=gm.Infidelity(t), compiler=su.compiler("stab", 1)).solve()
+                except (IndexError, AssertionError):
+                    pass  # product / non-graph-form targets: the solver's own limits (C02); only the target object matters here
+            elif name == "copy":
+                t.copy()
+        except Exception as e:
+            acc.violation("raises", "target:" + name, "raises-" + type(e).__name__, dict(case, step=k), "call returns", repr(e)[:200])
+            return
+        try:
+            ok = type(t.rep_data).__name__ == "Stabilizer" and gq.tableau_invariant(t.rep_data.data) is None and gq.tableau_group(t.rep_data.data).same_state(grp)
+        except Exception:
+            ok = False
+        if not ok:
+            acc.violation("target", name, "target-state-changed", dict(case, step=k), grp.strings(), "other state / representation")
+            return
+    acc.validated += 1
+    acc.nontriv(("sttarget", n, idx, tuple(hist)))
+
+
 def isolated(case):
     return "edges" in case and spaces.has_isolated(case["n"], [tuple(e) for e in case["edges"]])
 
@@ -432,6 +474,10 @@ def shards(tier):
     for pi in deep:
         for c in CALLS:
             out.append({"kind": "hist", "prog": pi, "depth": 3, "first": c})
+    for a in range(0, 60, 10):
+        out.append({"kind": "sttarget", "n": 2, "lo": a, "hi": a + 10})
+    for a in range(0, 1080, 90):
+        out.append({"kind": "sttarget", "n": 3, "lo": a, "hi": a + 90, "stride": 9})
     nmax = 3 if tier == "quick" else 4
     for n in range(2, nmax + 1):
         for g in spaces.all_graphs(n):
@@ -441,6 +487,13 @@ def shards(tier):
 
 
 def run_shard(shard, tier, acc):
+    if shard["kind"] == "sttarget":
+        calls = ["infidelity_dm_state", "infidelity_s_state", "trs", "copy"]
+        for idx in range(shard["lo"], shard["hi"], shard.get("stride", 1)):
+            for L in (1, 2):
+                for h in itertools.product(calls, repeat=L):
+                    run_stabilizer_target(acc, shard["n"], idx, h)
+        return
     if shard["kind"] == "noisy":
         for L in (1, 2, 3):
             for h in itertools.product(NCALLS, repeat=L):
